@@ -336,7 +336,7 @@ package soyhtml
 //@ func EvalExpr
 //@   props C06
 //@   modifies *
-//@   preserves F!github.com/robfig/soy/ast.* F!github.com/robfig/soy/template.* E!Iface E!Int E!Str E!|S!github.com/robfig/soy/template.* G!github.com/robfig/soy/* F!github.com/robfig/soy/soyhtml.Tofu!* F!github.com/robfig/soy/soyhtml.Renderer!*
+//@   preserves F!bufio.* F!github.com/robfig/soy/ast.* F!github.com/robfig/soy/template.* E!Iface E!Int E!Str E!|S!github.com/robfig/soy/template.* G!github.com/robfig/soy/* F!github.com/robfig/soy/soyhtml.Tofu!* F!github.com/robfig/soy/soyhtml.Renderer!*
 //@   mapwrites owned
 //@   at entry set renderBase = allocmark()
 //@   recoverby (*state).errRecover
